@@ -99,17 +99,32 @@ theorem C08_lz4_withLength_prefix_wraps (codec : BlockCodec) (x : Bytes) (hne : 
 
 /-! ## Snappy -/
 
+/-- the length check never refuses what `snappy.Encode` produced -/
+theorem snappyDecodeChecked_encode (codec : BlockCodec) (law : SnappyLaw codec) (x : Bytes) :
+    snappyDecodeChecked codec (codec.encode x) = .ok x := by
+  rw [snappyDecodeChecked, law.decodedLen_encode]
+  show (if x.length > snappyMaxRatio * (codec.encode x).length then _ else codec.decode (codec.encode x)) = _
+  rw [if_neg (Nat.not_lt.mpr (law.ratio x)), law.decode_encode]
+
+/-- a block whose header declares more than 64 times its own size is refused before anything is allocated for it -/
+theorem C08_snappy_implausible_length_refused (codec : BlockCodec) (chunk : Bytes) (n : Nat)
+    (hn : codec.decodedLen chunk = .ok n) (hbig : 64 * chunk.length < n) :
+    snappyDecompressWithLength codec chunk = .err "declared length is impossible" := by
+  rw [snappyDecompressWithLength, snappyDecodeChecked, hn]
+  show (if n > snappyMaxRatio * chunk.length then _ else _) = _
+  exact if_pos hbig
+
 /-- **C08 (Snappy).** -/
 theorem C08_snappy_roundtrip (codec : BlockCodec) (law : SnappyLaw codec) (x : Bytes) :
     (snappyCompressWithLength codec x >>= snappyDecompressWithLength codec) = .ok x := by
   rw [snappyCompressWithLength]
   show snappyDecompressWithLength codec (codec.encode x) = _
-  rw [snappyDecompressWithLength, law.decode_encode]
+  rw [snappyDecompressWithLength, snappyDecodeChecked_encode codec law]
 
 theorem C08_snappy_consumes (codec : BlockCodec) (law : SnappyLaw codec) (x c : Bytes)
     (hc : snappyCompressWithLength codec x = .ok c) : snappyDecompressWithLengthRest codec c = .ok (x, []) := by
   rw [snappyCompressWithLength] at hc
-  rw [← Res.ok_inj hc, snappyDecompressWithLengthRest, law.decode_encode]
+  rw [← Res.ok_inj hc, snappyDecompressWithLengthRest, snappyDecodeChecked_encode codec law]
   rfl
 
 /-! ## the compressors under the frame codec (C01) and the segment codec (C06) -/
@@ -244,7 +259,9 @@ theorem C08_literalCodec_lz4Law : Lz4Law literalCodec :=
 
 theorem C08_literalCodec_snappyLaw : SnappyLaw literalCodec :=
   { decode_encode := fun _ => rfl
-    bound := fun x => by show x.length ≤ _; omega }
+    decodedLen_encode := fun _ => rfl
+    ratio := fun x => (by show x.length ≤ 64 * x.length; omega)
+    bound := fun x => (by show x.length ≤ _; omega) }
 
 /-- the round-trip theorem instantiated on the concrete codec … -/
 example (x : Bytes) : (lz4Compress literalCodec x >>= lz4Decompress literalCodec) = .ok x :=
@@ -263,6 +280,7 @@ def rleCodec : BlockCodec :=
   { compressBlock := fun x => if x.length = 0 then .ok [0] else .ok (List.replicate ((x.length + 199) / 200) 1)
     uncompressBlock := fun c dst => if c.length * 200 ≤ dst then .ok (List.replicate (c.length * 200) 5) else .err "short buffer"
     encode := fun x => x
+    decodedLen := fun x => .ok x.length
     decode := fun x => .ok x }
 
 example : (lz4Compress rleCodec (List.replicate 400 5) >>= lz4Decompress rleCodec) = .ok (List.replicate 400 5) := by
